@@ -562,3 +562,83 @@ def letter_spaces(rep, M, rid):
     else:
         rep.violation(rid, "get_wyckoff_letters_original: result", f"returns letters of the {ret[0][1] if len(ret[0]) > 1 else ret[0]} space; required the "
                       "images of spglib's letters under the chosen permutation", M.where(fq))
+
+
+# ----------------------------------------------------------------------------- tolerance reaches spglib
+def tolerance_reaches_spglib(rep, M, rid):
+    """self.symmetry_tol must arrive at spglib.get_symmetry_dataset as its symprec, through segfault_protect"""
+    fq = SA + ".get_symmetry_dataset"
+    fn = M.func(fq)
+    sp = "matid.utils.segfault_protect.segfault_protect"
+    calls = M.calls_to(fq, sp)
+    direct = [c for c in ast.walk(fn) if isinstance(c, ast.Call) and M.ext_name(fq, c.func) == "spglib.get_symmetry_dataset"]
+    if not calls and not direct:
+        raise AnalysisError("get_symmetry_dataset: call of spglib.get_symmetry_dataset (directly or through segfault_protect) not found")
+    for c in direct:
+        vals = [norm(a) for a in c.args[1:2]] + [norm(k.value) for k in c.keywords if k.arg == "symprec"]
+        if "self.symmetry_tol" in vals:
+            rep.ok(rid, "spglib.get_symmetry_dataset(..., symprec=self.symmetry_tol)")
+        else:
+            rep.violation(rid, "get_symmetry_dataset: tolerance", "spglib is not called with the analyzer's symmetry tolerance", M.where(fq, c))
+    if calls:
+        w = M.func(sp)
+        inner = [c for c in ast.walk(w) if isinstance(c, ast.Call) and isinstance(c.func, ast.Name) and c.func.id == w.args.args[0].arg]
+        fwd_args = any(any(isinstance(a, ast.Starred) and norm(a.value) == (w.args.vararg.arg if w.args.vararg else "") for a in c.args) for c in inner)
+        fwd_kw = any(any(k.arg is None and norm(k.value) == (w.args.kwarg.arg if w.args.kwarg else "") for k in c.keywords) for c in inner)
+        for c in calls:
+            tgt = c.args[0] if c.args else None
+            if tgt is None or M.ext_name(fq, tgt) != "spglib.get_symmetry_dataset":
+                rep.violation(rid, "get_symmetry_dataset: protected call", f"segfault_protect does not wrap spglib.get_symmetry_dataset (`{norm(tgt) if tgt is not None else None}`)",
+                              M.where(fq, c))
+                continue
+            pos = [norm(a) for a in c.args[1:]]
+            kws = {k.arg: norm(k.value) for k in c.keywords if k.arg}
+            if len(pos) >= 2 and pos[1] == "self.symmetry_tol" and fwd_args:
+                rep.ok(rid, "self.symmetry_tol is passed positionally through segfault_protect(function, *args) as spglib's symprec")
+            elif kws.get("symprec") == "self.symmetry_tol" and fwd_kw:
+                rep.ok(rid, "self.symmetry_tol is passed as symprec= and segfault_protect forwards **kwargs")
+            elif "self.symmetry_tol" in kws.values() and not fwd_kw:
+                rep.violation(rid, "get_symmetry_dataset: tolerance passed by keyword", "segfault_protect(function, *args, **kwargs) calls function(*args) "
+                              "and drops the keyword arguments, so `symprec=self.symmetry_tol` never reaches spglib: the default 1e-5 is used and any "
+                              "crystal with noise above it is analysed as P1", M.where(fq, c))
+            else:
+                rep.violation(rid, "get_symmetry_dataset: tolerance", f"the symmetry tolerance does not reach spglib (positional {pos}, keywords {kws})", M.where(fq, c))
+    init = M.func(SA + ".__init__")
+    if any(isinstance(s2, ast.Assign) and norm(s2.targets[0]) == "self.symmetry_tol" and norm(s2.value) == "symmetry_tol" for s2 in ast.walk(init)):
+        rep.ok(rid, "the symmetry_tol constructor argument is stored")
+    else:
+        rep.violation(rid, "SymmetryAnalyzer.__init__: symmetry_tol", "the constructor argument is not stored", M.where(SA + ".__init__"))
+
+
+def handed_out_objects_not_mutated(rep, M, rid):
+    """systems that the analyzer caches and hands out (conventional / primitive system) are never modified afterwards"""
+    from .effects import Effects, MUTATORS
+    E = Effects(M)
+    fq = SA + "._get_primitive_system"
+    ps = M.params(fq)
+    mut = [p for p in ps if p in E.mut[fq]]
+    if mut:
+        for p in mut:
+            why = E.why(fq, p)
+            rep.violation(rid, f"_get_primitive_system mutates `{p}`", f"{why[0][2] if why else 'in place'}: the argument is the cached system that "
+                          "get_conventional_system() hands out, so a conventional system fetched earlier changes retroactively (e.g. it keeps all atoms "
+                          "but carries the primitive lattice)", M.where(fq))
+    else:
+        rep.ok(rid, "_get_primitive_system does not modify the conventional system it is given")
+    # no method other than the builder itself applies a mutator to the cached objects
+    n = 0
+    for q, d in M.functions().items():
+        if M.parent.get(q) != SA or d.name in ("get_conventional_system", "_find_wyckoff_ground_state", "set_system", "reset", "__init__"):
+            continue
+        names = {}
+        for s2 in ast.walk(d):
+            if isinstance(s2, ast.Assign) and isinstance(s2.targets[0], ast.Name) and isinstance(s2.value, ast.Call) and isinstance(s2.value.func, ast.Attribute) \
+                    and s2.value.func.attr in ("get_conventional_system", "get_primitive_system", "_get_spglib_conventional_system"):
+                names[s2.targets[0].id] = s2.value.func.attr
+        for c in ast.walk(d):
+            if isinstance(c, ast.Call) and isinstance(c.func, ast.Attribute) and c.func.attr in MUTATORS and isinstance(c.func.value, ast.Name) \
+                    and c.func.value.id in names:
+                n += 1
+                rep.violation(rid, f"{d.name}: `{norm(c)[:60]}`", f"modifies the cached object returned by {names[c.func.value.id]}() in place", M.where(q, c))
+    if not n:
+        rep.ok(rid, "no analyzer method applies a mutator to a cached conventional / primitive system it fetched")
